@@ -87,4 +87,65 @@ Theorem get_matrix_entry_refines LL v w : rep_lap LL g ->
   CFLaplacian_get_matrix_entry vs LL v w = if Nat.ltb v n && Nat.ltb w n then PyOk (lap_entry g v w) else PyExn tt.
 Proof. intros HL. unfold CFLaplacian_get_matrix_entry. cbn zeta. rewrite (Hvs v), (Hvs w). destruct (Nat.ltb v n) eqn:Lv; cbn [negb orb andb]; [|reflexivity].
   destruct (Nat.ltb w n); cbn [negb]; [|reflexivity]. pose proof (HL v) as H. rewrite Lv in H. destruct H as (row & Er & Fr). unfold d_get at 2. rewrite Er. rewrite (Fr w). reflexivity. Qed.
+(* ---- CFLaplacian.get_reduced_matrix(q): the rows and columns of every vertex but q, each entry the Laplacian entry (rows of self.laplacian being defaultdict(int): absent = 0);
+   the result has NO row and NO column for q, and none for a name that is not a vertex - in whatever order the vertex set is iterated (twice) ---- *)
+Definition red_inner (LL : list (nat * list (nat * Z))) (q v : nat) (acc_ : pyres unit (list (nat * list (nat * Z)))) (w : nat) : pyres unit (list (nat * list (nat * Z))) :=
+  match acc_ with PyExn e_ => PyExn e_ | PyOk reduced_matrix =>
+  if (negb (Nat.eqb w q)) then
+  match d_find v LL with None => PyExn tt | Some t1_ =>
+  match d_find v reduced_matrix with None => PyExn tt | Some t2_ =>
+  let reduced_matrix := d_set v (d_set w (d_get w 0 t1_) t2_) reduced_matrix in
+  PyOk reduced_matrix end end
+  else PyOk reduced_matrix end.
+Definition red_outer (LL : list (nat * list (nat * Z))) (q : nat) (W : list nat) (acc_ : pyres unit (list (nat * list (nat * Z)))) (v : nat) : pyres unit (list (nat * list (nat * Z))) :=
+  match acc_ with PyExn e_ => PyExn e_ | PyOk reduced_matrix =>
+  if (negb (Nat.eqb v q)) then
+  let reduced_matrix := d_set v [] reduced_matrix in
+  match fold_left (red_inner LL q v) W (PyOk reduced_matrix) with PyExn e_ => PyExn e_ | PyOk reduced_matrix => PyOk reduced_matrix end
+  else PyOk reduced_matrix end.
+Lemma reduced_unfold LL q : CFLaplacian_get_reduced_matrix LL vs so q =
+  match fold_left (red_outer LL q (so vs)) (so vs) (PyOk []) with PyExn e_ => PyExn e_ | PyOk r => PyOk r end.
+Proof. reflexivity. Qed.
+Lemma red_inner_loop LL q v lrow : d_find v LL = Some lrow -> forall L RR row, d_find v RR = Some row ->
+  exists RR' row', fold_left (red_inner LL q v) L (PyOk RR) = PyOk RR' /\ d_find v RR' = Some row' /\ (forall u, u <> v -> d_find u RR' = d_find u RR) /\
+    (forall w, d_find w row' = if s_mem w L && negb (Nat.eqb w q) then Some (d_get w 0 lrow) else d_find w row).
+Proof. intros El. induction L as [|x L IH]; intros RR row Er.
+  - exists RR, row. repeat split; auto.
+  - cbn [fold_left]. unfold red_inner at 2. destruct (Nat.eqb_spec x q) as [Q|Q]; cbn [negb].
+    + destruct (IH RR row Er) as (RR' & row' & E1 & E2 & E3 & E4). exists RR', row'. repeat split; auto. intros w. rewrite (E4 w). unfold s_mem. cbn [existsb].
+      destruct (Nat.eqb_spec w x) as [->|P]; cbn [orb]; [|reflexivity]. subst x. rewrite Nat.eqb_refl. cbn [negb]. rewrite andb_false_r. reflexivity.
+    + unfold dictD, dictZ in *. rewrite El, Er. cbn zeta.
+      destruct (IH (d_set v (d_set x (d_get x 0 lrow) row) RR) _ (d_find_set_same _ _ _)) as (RR' & row' & E1 & E2 & E3 & E4). exists RR', row'. split; [exact E1|]. split; [exact E2|]. split.
+      * intros u Hu. rewrite (E3 u Hu), d_find_set. destruct (Nat.eqb_spec u v); [contradiction|reflexivity].
+      * intros w. rewrite (E4 w). unfold s_mem. cbn [existsb]. fold (s_mem w L). destruct (s_mem w L && negb (Nat.eqb w q)) eqn:B.
+        { apply andb_true_iff in B. destruct B as [B1 B2]. rewrite B1, B2, orb_true_r. reflexivity. }
+        rewrite d_find_set. destruct (Nat.eqb_spec w x) as [->|P]; cbn [orb].
+        { destruct (Nat.eqb_spec x q); [contradiction|]. reflexivity. }
+        apply andb_false_iff in B. destruct B as [B|B]; rewrite B; [reflexivity|rewrite andb_false_r; reflexivity]. Qed.
+Definition red_row_ok (q u : nat) (W : list nat) (row : list (nat * Z)) : Prop := forall w, d_find w row = if s_mem w W && negb (Nat.eqb w q) then Some (lap_entry g u w) else None.
+Lemma red_outer_loop LL q W : rep_lap LL g -> forall L, (forall v, In v L -> (v < n)%nat) -> forall RR,
+  exists RR', fold_left (red_outer LL q W) L (PyOk RR) = PyOk RR' /\
+    forall u, if s_mem u L && negb (Nat.eqb u q) then exists row, d_find u RR' = Some row /\ red_row_ok q u W row else d_find u RR' = d_find u RR.
+Proof. intros HL. induction L as [|x L IH]; intros Hin RR; [exists RR; split; [reflexivity|intros u; reflexivity]|]. cbn [fold_left]. unfold red_outer at 2.
+  assert (Hx : (x < n)%nat) by (apply Hin; left; reflexivity). pose proof (HL x) as Hr. apply Nat.ltb_lt in Hx. rewrite Hx in Hr. destruct Hr as (lrow & El & Fl).
+  destruct (Nat.eqb_spec x q) as [Q|Q]; cbn [negb].
+  - destruct (IH (fun v Hv => Hin v (or_intror Hv)) RR) as (RR' & E1 & E2). exists RR'. split; [exact E1|]. intros u. specialize (E2 u). unfold s_mem. cbn [existsb]. fold (s_mem u L).
+    destruct (Nat.eqb_spec u x) as [->|P]; cbn [orb]; [|exact E2]. subst x. rewrite Nat.eqb_refl in *. cbn [negb] in *. rewrite andb_false_r in *. exact E2.
+  - cbn zeta. destruct (red_inner_loop LL q x lrow El W (d_set x [] RR) [] (d_find_set_same _ _ _)) as (R1 & row1 & F1 & F2 & F3 & F4). unfold dictD, dictZ in *. rewrite F1.
+    destruct (IH (fun v Hv => Hin v (or_intror Hv)) R1) as (RR' & E1 & E2). exists RR'. split; [exact E1|]. intros u. specialize (E2 u). unfold s_mem. cbn [existsb]. fold (s_mem u L).
+    destruct (s_mem u L && negb (Nat.eqb u q)) eqn:B.
+    { apply andb_true_iff in B. destruct B as [B1 B2]. rewrite B1, B2, orb_true_r. exact E2. }
+    destruct (Nat.eqb_spec u x) as [->|P]; cbn [orb].
+    + destruct (Nat.eqb_spec x q); [contradiction|]. cbn [negb andb]. exists row1. split; [rewrite E2; exact F2|]. intros w. rewrite (F4 w). cbn [d_find]. rewrite (Fl w). reflexivity.
+    + apply andb_false_iff in B. rewrite E2, (F3 u P), d_find_set. destruct (Nat.eqb_spec u x); [contradiction|]. destruct B as [B|B]; rewrite B; [reflexivity|rewrite andb_false_r; reflexivity]. Qed.
+Theorem get_reduced_matrix_refines LL q : rep_lap LL g -> exists RR, CFLaplacian_get_reduced_matrix LL vs so q = PyOk RR /\
+  forall u, if Nat.ltb u n && negb (Nat.eqb u q)
+            then exists row, d_find u RR = Some row /\ forall w, d_find w row = if Nat.ltb w n && negb (Nat.eqb w q) then Some (lap_entry g u w) else None
+            else d_find u RR = None.
+Proof. intros HL. rewrite reduced_unfold.
+  assert (Hin : forall v, In v (so vs) -> (v < n)%nat).
+  { intros v Hv. apply (Permutation_in _ (Hso vs)) in Hv. apply s_mem_In in Hv. rewrite (Hvs v) in Hv. apply Nat.ltb_lt. exact Hv. }
+  destruct (red_outer_loop LL q (so vs) HL (so vs) Hin []) as (RR & E & F). rewrite E. exists RR. split; [reflexivity|]. intros u. specialize (F u).
+  rewrite (s_mem_perm u _ _ (Hso vs)), (Hvs u) in F. destruct (Nat.ltb u n && negb (Nat.eqb u q)); [|exact F].
+  destruct F as (row & Er & Fr). exists row. split; [exact Er|]. intros w. rewrite (Fr w), (s_mem_perm w _ _ (Hso vs)), (Hvs w). reflexivity. Qed.
 End LAP.
